@@ -293,6 +293,14 @@ def match_known(prop, sig, known):
     return None
 
 
+def clip(s, n=1500):
+    """Diagnostic text of a dead worker: its beginning (the reason of a crash) and its end."""
+    s = s or ""
+    if len(s) <= n:
+        return s
+    return s[:n // 2] + "\n[...]\n" + s[-(n // 2):]
+
+
 def unreproduced(v, rej, rej2, what="rejections", total=None):
     """Confirmation rule shared by the checks: a rejected case that is not rejected again when it is re-run on the
     real code never becomes a verdict - it is dropped and counted in the evidence file (notes).  Only reproduced
